@@ -926,13 +926,13 @@ def errors(source, model, wcshelper):
         source.err_ra = source.err_dec = -1
 
     if model[prefix + 'theta'].vary and np.isfinite(err_theta):
-        # pa error
+        # pa error: the end of the semi-major axis, rotated by err_theta
         off1 = wcshelper.pix2sky(
             [xo + sx * np.cos(np.radians(theta)),
-             yo + sy * np.sin(np.radians(theta))])
+             yo + sx * np.sin(np.radians(theta))])
         off2 = wcshelper.pix2sky(
             [xo + sx * np.cos(np.radians(theta + err_theta)),
-             yo + sy * np.sin(np.radians(theta + err_theta))])
+             yo + sx * np.sin(np.radians(theta + err_theta))])
         source.err_pa = abs(
             bear(ref[0], ref[1], off1[0], off1[1])
             - bear(ref[0], ref[1], off2[0], off2[1]))
@@ -941,23 +941,27 @@ def errors(source, model, wcshelper):
 
     if model[prefix + 'sx'].vary and model[prefix + 'sy'].vary \
             and all(np.isfinite([err_sx, err_sy])):
-        # major axis error
+        # sx/sy are sigmas, a/b are FWHMs
+        cc2fwhm = 2 * math.sqrt(2 * math.log(2))
+        # major axis error: a step of err_sx along the major axis
         ref = wcshelper.pix2sky(
             [xo + sx * np.cos(np.radians(theta)),
-             yo + sy * np.sin(np.radians(theta))])
+             yo + sx * np.sin(np.radians(theta))])
         offset = wcshelper.pix2sky(
             [xo + (sx + err_sx) * np.cos(np.radians(theta)),
-             yo + sy * np.sin(np.radians(theta))])
-        source.err_a = gcd(ref[0], ref[1], offset[0], offset[1]) * 3600
+             yo + (sx + err_sx) * np.sin(np.radians(theta))])
+        source.err_a = gcd(ref[0], ref[1],
+                           offset[0], offset[1]) * 3600 * cc2fwhm
 
-        # minor axis error
+        # minor axis error: a step of err_sy along the minor axis
         ref = wcshelper.pix2sky(
-            [xo + sx * np.cos(np.radians(theta + 90)),
-             yo + sy * np.sin(np.radians(theta + 90))])
+            [xo + sy * np.cos(np.radians(theta - 90)),
+             yo + sy * np.sin(np.radians(theta - 90))])
         offset = wcshelper.pix2sky(
-            [xo + sx * np.cos(np.radians(theta + 90)),
-             yo + (sy + err_sy) * np.sin(np.radians(theta + 90))])
-        source.err_b = gcd(ref[0], ref[1], offset[0], offset[1]) * 3600
+            [xo + (sy + err_sy) * np.cos(np.radians(theta - 90)),
+             yo + (sy + err_sy) * np.sin(np.radians(theta - 90))])
+        source.err_b = gcd(ref[0], ref[1],
+                           offset[0], offset[1]) * 3600 * cc2fwhm
     else:
         source.err_a = source.err_b = ERR_MASK
 
